@@ -474,3 +474,51 @@ theorem ladderOp_good (f : FieldD) (hp : f.ptype = .fermion) (i : Fin f.nsites) 
     rfl
 
 end Qib.Fermi
+
+namespace Qib.Fermi
+open Complex Matrix
+
+/-! ### the sum over index tuples as a sum over functions `Fin n → Fin L` -/
+
+theorem list_range_sum {M : Type*} [AddCommMonoid M] (f : ℕ → M) (n : ℕ) :
+    ((List.range n).map f).sum = ∑ i : Fin n, f i := by
+  rw [← Finset.sum_range]
+  induction n with
+  | zero => simp
+  | succ n ih => simp [List.range_succ, Finset.sum_range_succ, ih]
+
+theorem sum_multiIndices_replicate {M : Type*} [AddCommMonoid M] (n L : ℕ) (F : List ℕ → M) :
+    ((multiIndices (List.replicate n L)).map F).sum = ∑ g : Fin n → Fin L, F (List.ofFn fun a => (g a : ℕ)) := by
+  induction n generalizing F with
+  | zero => simp [multiIndices]
+  | succ n ih =>
+    simp only [List.replicate_succ, multiIndices, sum_map_flatMap, List.map_map]
+    have : ∀ i ∈ List.range L, ((multiIndices (List.replicate n L)).map (F ∘ fun is => i :: is)).sum =
+        ∑ g : Fin n → Fin L, F (i :: List.ofFn fun a => (g a : ℕ)) := fun i _ => ih _
+    rw [List.map_congr_left this, list_range_sum]
+    rw [← Fintype.sum_prod_type']
+    refine (Fintype.sum_equiv (Equiv.piFinSucc n (Fin L)) _ _ ?_).symm
+    intro g
+    simp only [Equiv.piFinSucc_apply, List.ofFn_succ, Fin.tail]
+
+theorem stringM_ofFn (L n : ℕ) (ds : Fin n → IFODesc) (js : Fin n → ℕ) :
+    stringM L (List.ofFn ds) (List.ofFn js) = (List.ofFn fun a => ladderN L (ds a).otype (js a)).prod := by
+  induction n with
+  | zero => simp
+  | succ n ih => simp only [List.ofFn_succ, stringM_cons, List.prod_cons, ih]
+
+/-- the matrix of a term with `n` fermionic operators and an `L × … × L` coefficient array, as a sum over all index
+tuples `g : Fin n → Fin L` of the coefficient times the ordered product of the ladder matrices -/
+theorem Term.mat_sum (L n : ℕ) (ds : Fin n → IFODesc) (kind : Fin n → Bool)
+    (hkind : ∀ a, opKind (ds a).otype = some (kind a)) (c : Tensor) (hs : c.shape = List.replicate n L) :
+    (Term.mk (List.ofFn ds) c).mat L =
+      ∑ g : Fin n → Fin L, gqC (c.get (List.ofFn fun a => (g a : ℕ))) •
+        (List.ofFn fun a => ladderM L (g a) (kind a)).prod := by
+  simp only [Term.mat, hs, sum_multiIndices_replicate, stringM_ofFn]
+  apply Finset.sum_congr rfl
+  intro g _
+  congr 2
+  funext a
+  simp [ladderN, hkind a]
+
+end Qib.Fermi
